@@ -184,6 +184,13 @@ func (t *domainRoutingTracker) syncOwner(
 
 	t.mu.Lock()
 	defer t.mu.Unlock()
+	// The cache may have replaced or evicted the entry since this update was
+	// requested (queued asynchronous update, or two inserts racing under one key):
+	// applying it now would leave addresses in the table that no cached entry lists.
+	// Whoever replaced or evicted the entry syncs the table after us.
+	if snapshot.src != nil && snapshot.src.routeLive != nil && !snapshot.src.routeLive() {
+		return nil
+	}
 	return t.syncOwnerLocked(m, ownerKey, snapshot)
 }
 
